@@ -77,6 +77,28 @@ def impl_init():
         except PacketError:
             return False
 
+    import scapy.all  # noqa: F401   (as after `from scapy.all import *`: every protocol layer is bound to its ports)
+    from scapy.layers.inet import IP as SIP, TCP as STCP
+    from scapy.layers.inet6 import IPv6 as SIP6
+    from scapy.packet import Raw as SRaw
+    from pyp0f.net.packet import parse_packet
+    PORTS = [80, 8080, 53, 2000, 88, 464, 139, 445, 135, 1723, 443, 5060, 179, 389, 23]      # several have a Scapy dissector bound to them
+
+    def via_packet(raw):
+        """The same payload inside a TCP segment as sniffed (dissected from bytes; to / from a port Scapy has a protocol layer for)."""
+        port = PORTS[len(raw) % len(PORTS)]
+        l3 = SIP() if len(raw) % 2 else SIP6()
+        seg = l3 / (STCP(sport=40000, dport=port, flags="PA") if len(raw) % 4 < 2 else STCP(sport=port, dport=40000, flags="PA")) / SRaw(raw)
+        pkt = l3.__class__(bytes(seg))
+        out = []
+        for name, f in (("HTTP.from_packet", lambda: HTTP.from_packet(pkt)), ("HTTPPacketSignature.from_packet", lambda: HTTPPacketSignature.from_packet(parse_packet(pkt)))):
+            try:
+                x = f()
+                out.append([name, [x.version, [[bytes(h.name).hex(), bytes(h.value).hex()] for h in x.headers]]])
+            except PacketError:
+                out.append([name, "PacketError"])
+        return port, out
+
     def impl(c):
         raw = bytes.fromhex(c["payload"])
         k = len(raw) % 3               # every accepted buffer type; a bytearray / ReceiveBuffer must come back unconsumed
@@ -108,6 +130,11 @@ def impl_init():
                     return {"exc": "%s.from_buffer accepts a payload read_payload rejects" % cls.__name__}
                 except PacketError:
                     pass
+            if len(raw) % 5 == 0:
+                port, got = via_packet(raw)
+                for name, g in got:
+                    if g != "PacketError":
+                        return {"exc": "%s (port %d) accepts a payload read_payload rejects" % (name, port)}
             return {"err": "PacketError"}
         res = {"ok": ["request" if d == Direction.CLIENT_TO_SERVER else "response", v, [[bytes(h.name).hex(), bytes(h.value).hex()] for h in hs]]}
         # the layer / signature classes are further entry points to the same parse: they must agree with read_payload
@@ -119,6 +146,11 @@ def impl_init():
                 got = "PacketError"
             if got != res["ok"][1:]:
                 return {"exc": "%s.from_buffer disagrees with read_payload: %s" % (cls.__name__, str(got)[:120])}
+        if len(raw) % 5 < 2:
+            port, got = via_packet(raw)
+            for name, g in got:
+                if g != res["ok"][1:]:
+                    return {"exc": "%s on a segment to/from port %d disagrees with read_payload on the same payload: %s" % (name, port, str(g)[:120])}
         return res
     return impl
 
